@@ -222,6 +222,9 @@ pub fn expected_msgs(scen: &Scenario, inst: u32) -> Vec<MsgRef> {
             m(Kind::RepairInit, hub, *target);
             if *target >= n {
                 m(Kind::PubKeys, *target, hub);
+                for p in 0..n {
+                    m(Kind::PubKeys, hub, p);
+                }
             }
             for h in helpers {
                 m(Kind::RepairReq, hub, *h);
